@@ -2,7 +2,7 @@
 use crate::util::*;
 use oxidize_pdf::parser::objects::{PdfDictionary, PdfObject};
 use oxidize_pdf::parser::PdfReader;
-use oxidize_pdf::structure::{Destination, OutlineItem, OutlineTree, PageDestination};
+use oxidize_pdf::structure::{Destination, NamedDestinations, OutlineItem, OutlineTree, PageDestination};
 use oxidize_pdf::writer::WriterConfig;
 use oxidize_pdf::{Document, Page};
 use serde_json::{json, Value};
@@ -232,6 +232,118 @@ fn emit(out: &mut Out, dout: &mut Out, forest: &[Item], npages: u32, cfg: u64, c
     out.push(coq, js, class, nonlast_with_children(forest));
 }
 
+/// named destinations of one written copy: (name bytes, Coq wdest term)
+fn read_names(bytes: Vec<u8>) -> Result<Vec<(Vec<u8>, String)>, String> {
+    let mut rd = PdfReader::new(std::io::Cursor::new(bytes)).map_err(|e| format!("reopen: {e:?}"))?;
+    let cat = rd.catalog().map_err(|e| format!("catalog: {e:?}"))?.clone();
+    let mut page_objs: Vec<u64> = vec![];
+    if let Some(PdfObject::Reference(pn, _)) = cat.get("Pages") {
+        if let Ok(PdfObject::Dictionary(pd)) = rd.get_object(*pn, 0) {
+            if let Some(PdfObject::Array(k)) = pd.get("Kids") {
+                for i in 0..k.len() {
+                    if let Some(PdfObject::Reference(n, _)) = k.get(i) {
+                        page_objs.push(*n as u64);
+                    }
+                }
+            }
+        }
+    }
+    let names_ref = match cat.get("Names") {
+        Some(PdfObject::Reference(n, _)) => *n,
+        None => return Ok(vec![]),
+        o => return Err(format!("/Names: {o:?}")),
+    };
+    let nd = match rd.get_object(names_ref, 0).map_err(|e| format!("{e:?}"))? {
+        PdfObject::Dictionary(d) => d.clone(),
+        o => return Err(format!("name dictionary: {o:?}")),
+    };
+    let dests_ref = match nd.get("Dests") {
+        Some(PdfObject::Reference(n, _)) => *n,
+        None => return Ok(vec![]),
+        o => return Err(format!("/Dests: {o:?}")),
+    };
+    // walk the name tree (leaf /Names arrays, /Kids)
+    let mut out = vec![];
+    let mut todo = vec![dests_ref];
+    let mut guard = 0;
+    while let Some(n) = todo.pop() {
+        guard += 1;
+        if guard > 1000 {
+            return Err("name tree too large or cyclic".into());
+        }
+        let d = match rd.get_object(n, 0).map_err(|e| format!("{e:?}"))? {
+            PdfObject::Dictionary(d) => d.clone(),
+            o => return Err(format!("name tree node: {o:?}")),
+        };
+        if let Some(PdfObject::Array(k)) = d.get("Kids") {
+            for i in 0..k.len() {
+                if let Some(PdfObject::Reference(c, _)) = k.get(i) {
+                    todo.push(*c);
+                }
+            }
+        }
+        if let Some(PdfObject::Array(a)) = d.get("Names") {
+            let mut i = 0;
+            while i + 1 < a.len() {
+                let name = match a.get(i) {
+                    Some(PdfObject::String(s)) => s.as_bytes().to_vec(),
+                    o => return Err(format!("name tree key: {o:?}")),
+                };
+                let w = match a.get(i + 1) {
+                    Some(PdfObject::Array(d)) => match d.get(0) {
+                        Some(PdfObject::Integer(x)) => format!("WInt {}", coq_z(*x as i128)),
+                        Some(PdfObject::Reference(r, _)) => format!("WRef {}", coq_opt(page_objs.iter().position(|p| *p == *r as u64).map(|x| x.to_string()))),
+                        _ => "WOther".to_string(),
+                    },
+                    _ => "WOther".to_string(),
+                };
+                out.push((name, w));
+                i += 2;
+            }
+        }
+    }
+    Ok(out)
+}
+
+fn emit_names(out: &mut Out, names: &[(String, u32)], npages: u32, cfg: u64, copies: usize, class: &str) {
+    let js = json!({"names": names.iter().map(|(n, p)| json!([n, p])).collect::<Vec<_>>(), "npages": npages, "cfg": cfg, "copies": copies});
+    let res = catch(std::panic::AssertUnwindSafe(|| {
+        let mut doc = Document::new();
+        for _ in 0..npages {
+            doc.add_page(Page::a4());
+        }
+        let mut nd = NamedDestinations::new();
+        for (n, p) in names {
+            nd.add_destination(n.clone(), Destination::fit(PageDestination::PageNumber(*p)).to_array());
+        }
+        doc.set_named_destinations(nd);
+        let mut all = vec![];
+        for _ in 0..copies {
+            let config = WriterConfig { use_xref_streams: cfg & 1 == 1, ..WriterConfig::default() };
+            let bytes = doc.to_bytes_with_config(config).map_err(|e| format!("write: {e:?}"))?;
+            all.push(read_names(bytes)?);
+        }
+        Ok::<_, String>(all)
+    }));
+    let all = match res {
+        Ok(Ok(a)) => a,
+        Ok(Err(e)) => {
+            out.impl_failures.push(json!({"what": e, "case": js}));
+            return;
+        }
+        Err(p) => {
+            out.impl_failures.push(json!({"what": format!("panic: {p}"), "case": js}));
+            return;
+        }
+    };
+    let coq = format!(
+        "({}, {})",
+        coq_list(names.iter().map(|(n, p)| format!("({}, {})", coq_bytes(n.as_bytes()), p))),
+        coq_list(all.iter().map(|c| coq_list(c.iter().map(|(n, w)| format!("({}, {})", coq_bytes(n), w)))))
+    );
+    out.push(coq, js, class, names.len() >= 2 && copies >= 2);
+}
+
 pub fn run(ctx: &Ctx) {
     let header = "From OxVerif Require Import Base.Util C28.Model.\nOpen Scope Z_scope.";
     let mut out = Out::new(ctx, header, "list item * N * option N * option N * Z * list rec", "outline_code");
@@ -300,4 +412,34 @@ pub fn run(ctx: &Ctx) {
     }
     out.finish("outline");
     dout.finish("dest");
+
+    // ---------- channel names: named destinations, the same Document serialized 1..3 times ----------
+    let mut nout = Out::new(ctx, header, "list (bytes * N) * list (list (bytes * wdest))", "names_code");
+    nout.shard_size = 200;
+    if let Some(cases) = ctx.replay_cases() {
+        for c in cases.iter().filter(|c| c.get("names").is_some()) {
+            let names: Vec<(String, u32)> = c["names"].as_array().unwrap().iter().map(|p| (p[0].as_str().unwrap().to_string(), p[1].as_u64().unwrap() as u32)).collect();
+            emit_names(&mut nout, &names, c["npages"].as_u64().unwrap_or(3) as u32, c["cfg"].as_u64().unwrap_or(0), c["copies"].as_u64().unwrap_or(2) as usize, "replay");
+        }
+    } else {
+        let mut r = Rng::new(ctx.seed ^ 0x28AA);
+        let n = if ctx.thorough() { 300 } else { 80 };
+        for i in 0..n {
+            let npages = r.range(1, 6) as u32;
+            let cnt = r.range(1, 8);
+            let mut names: Vec<(String, u32)> = vec![];
+            for k in 0..cnt {
+                let nm = match r.below(4) {
+                    0 => format!("intro{k}"),
+                    1 => format!("Chapter.{k}"),
+                    2 => format!("sec-{}-{k}", r.below(100)),
+                    _ => format!("Z{k}"),
+                };
+                names.push((nm, r.below(npages as u64) as u32));
+            }
+            let copies = 1 + (i % 3) as usize;
+            emit_names(&mut nout, &names, npages, r.below(2), copies, &format!("copies{copies}"));
+        }
+    }
+    nout.finish("names");
 }
